@@ -39,6 +39,10 @@ METALLACYCLES = [('C1CC[Pt]C1', ['[Pt]1CCCC1', 'C1CC[Pt]C1', 'C1C[Pt]CC1', '[Pt]
                  ('C1C[Pb]CC1C', ['[Pb]1CCC(C)C1', 'C1C[Pb]CC1', 'CC1CC[Pb]C1']),
                  ('C1CC[Pt]2(C1)CCCC2', ['[Pt]1CCCC1', 'C1CC[Pt]2(C1)CCCC2', '[Pt]12(CCCC1)CCCC2']),
                  ('C1CC[Sn]C1', ['[Sn]1CCCC1', 'C1C[Sn]CC1']),
+                 ('C[Hg]C', ['[Hg;z2]', '[Hg;z1]', 'C[Hg;z3]C', 'C[Hg;z1]C', '[M;z2]', '[M;z1]C']),
+                 ('O=[Os](=O)(=O)=O', ['[A;z1]=O', '[Os;z3]=O', '[M;z3]', '[M;z2]=O', 'O=[Os;z1]']),
+                 ('C=[Ta](C)(C)C', ['[M;z1]', '[M;z2]', 'C=[Ta;z2]', 'C[Ta;z1]', '[Ta;z1,z2]']),
+                 ('C1CC[Pt]C1', ['[Pt;z1]1CCCC1', '[Pt;z2]1CCCC1', 'C1C[Pt;z3]CC1', 'C[Pt;z1]']),
                  ('Cl[Pt]1(Cl)NCCN1', ['[Pt]1NCCN1', 'Cl[Pt]1NCCN1', 'N1CCN[Pt]1(Cl)Cl'])]
 
 
